@@ -289,6 +289,7 @@ int main(int argc, char **argv) {
     }
     for (i = 0; i < nthreads; i++) pthread_create(&th[i], NULL, thread_body, (void *)(long)i);
     for (i = 0; i < nthreads; i++) pthread_join(th[i], NULL);
+    for (i = 0; i < 3; i++) if (fcntl(i, F_GETFD) == -1) printf("STDCLOSED %d after the threads ended\n", i);
     for (i = 0; i < nthreads; i++) printf("T%d %s\n", i, results[i] ? results[i] : "(null)");
     if (coop) { printf("POINTS %ld\n", point); if (want_trace) { trace[ntrace] = 0; printf("TRACE %s\n", trace); } }
     return 0;
@@ -316,6 +317,10 @@ int main(int argc, char **argv) {
         if (!strncmp(r, "EXCEPTION", 9) && getenv("CTXMC_DEBUG")) fprintf(stderr, "op %c in context %d: %s\n", c, w, r);
         free(r);
       }
+      /* the standard descriptors belong to the process, not to a context: no operation of any context - creating or
+         destroying one included - may close them */
+      for (j = 0; j < 3; j++)
+        if (fcntl(j, F_GETFD) == -1) printf("STDCLOSED %d after step %d (operation %c of context %d)\n", j, step, c, w);
       for (j = 0; j < 3; j++)
         if (ctx[j]) { char *p = eval_forms(ctx[j], env[j], PROBE); printf("P %d %d %s\n", j, pos[j], p); free(p); }
     }
